@@ -9,7 +9,7 @@ theorem getD_topics {m : InFlight} {U : List Sub} {tp : List (Topic × List Sub)
     (aget tp m.topic).getD [] = U := by rw [h]; simp [aget]
 
 /-- result of a step: `AI` and `W` -/
-def StepOK (f : Req → Sub) (s s' : State) : Prop := AI f s' ∧ ∀ u t, W f u t s → W f u t s'
+def StepOK (f : Req → Sub) (s s' : State) : Prop := AI f s' ∧ ∀ u t r n0, W u t r n0 s → W u t r n0 s'
 
 theorem stepOK_of_outW {f : Req → Sub} {s s' : State} (hai : AI f s) (o : OutW f s s')
     (hinfl : ∀ m, s'.pc.inflight = some m → ∀ r ∈ m.streams, f r ∈ (aget s'.topics m.topic).getD []) : StepOK f s s' :=
@@ -54,8 +54,8 @@ theorem ack_stepOK (pick : Pick) (f : Req → Sub) {s : State} (hn : NInv s) (ha
   obtain ⟨peer, maxRetries, builders, nextTopic, token, done, sender, pc, closedStreams, waiters,
     nextTicket, topics, pubClosed, alloc, log⟩ := s
   cases pc with
-  | idle => exact ⟨hai, fun _ _ h => h⟩
-  | exited => exact ⟨hai, fun _ _ h => h⟩
+  | idle => exact ⟨hai, fun _ _ _ _ h => h⟩
+  | exited => exact ⟨hai, fun _ _ _ _ h => h⟩
   | exiting =>
     unfold State.ack
     simp only
@@ -63,10 +63,9 @@ theorem ack_stepOK (pick : Pick) (f : Req → Sub) {s : State} (hn : NInv s) (ha
       nextTicket, topics, pubClosed, alloc, log⟩ : State) (.releasePeer peer)
     generalize (State.allocStep pick (⟨peer, maxRetries, builders, nextTopic, token, done, sender, .exiting, closedStreams, waiters,
       nextTicket, topics, pubClosed, alloc, log⟩ : State) (.releasePeer peer)).1 = s1 at o1
-    have o2 : Out f s1 s1.pubShutdown := frame_out f (pubShutdown_frame s1) (pubShutdown_ext pick s1).mono
-    have o3 : Out f s1.pubShutdown ({ s1.pubShutdown.emit [Event.exitCallback] with pc := .exited } : State) :=
+    have o3 : Out f s1 ({ s1.emit [Event.exitCallback] with pc := .exited } : State) :=
       Out.same f rfl rfl (WCore.of_eq rfl) ⟨_, rfl⟩
-    apply stepOK_of_outW hai ((o1.trans o2).trans o3).toW
+    apply stepOK_of_outW hai (o1.trans o3).toW
     intro m hm; simp [Pc.inflight] at hm
   | opening m r =>
     have hmid : ∃ U b, Mid (⟨peer, maxRetries, builders, nextTopic, token, done, sender, .opening m r, closedStreams, waiters,
@@ -171,8 +170,8 @@ theorem run_stepOK (pick : Pick) (f : Req → Sub) {s : State} (hn : NInv s) (ha
           show StepOK f _ s1
           refine ⟨⟨fun b hb => (by rw [a1] at hb; cases hb), fun w hw => hai.wfun w (by rw [← hrest.2.1]; exact hw), ?_⟩, ?_⟩
           · intro m hm; rw [a4] at hm; simp [Pc.inflight] at hm
-          · intro u t hw
-            rcases hw with ⟨x, hx, ha⟩ | h | h
+          · intro u t r n0 hw
+            rcases hw with ⟨⟨x, hx, ha⟩, _⟩ | h | h
             · have := ha.nonempty; rw [a2 x hx] at this; cases this
             · exact Or.inr (Or.inl (by rw [hrest.2.2]; exact h))
             · exact Or.inr (Or.inr (h.mono (fun r hr => by rw [hrest.1]; exact hr) ⟨[], by rw [hrest.2.2]; simp⟩))
@@ -207,55 +206,81 @@ theorem run_stepOK (pick : Pick) (f : Req → Sub) {s : State} (hn : NInv s) (ha
             exact e.trans (Out.same f rfl rfl (WCore.of_eq rfl) ⟨[], by simp⟩)
           apply stepOK_of_outW hai (o1.trans o2.toW)
           intro m hm; simp [Pc.inflight] at hm
-        split
-        · have hi0 : Idle (⟨peer, maxRetries, builders, nextTopic, false, done, sender, .idle, closedStreams, waiters,
-              nextTicket, topics, pubClosed, alloc, log⟩ : State) := hi.frame ⟨rfl, rfl, rfl, rfl, rfl⟩
-          have o0 : OutW f (⟨peer, maxRetries, builders, nextTopic, token, done, sender, .idle, closedStreams, waiters,
-              nextTicket, topics, pubClosed, alloc, log⟩ : State)
-              (⟨peer, maxRetries, builders, nextTopic, false, done, sender, .idle, closedStreams, waiters,
-              nextTicket, topics, pubClosed, alloc, log⟩ : State) := by
-            have oS : Out f (⟨peer, maxRetries, builders, nextTopic, token, done, sender, .idle, closedStreams, waiters,
-                nextTicket, topics, pubClosed, alloc, log⟩ : State)
-                (⟨peer, maxRetries, builders, nextTopic, false, done, sender, .idle, closedStreams, waiters,
-                nextTicket, topics, pubClosed, alloc, log⟩ : State) := Out.same f rfl rfl (WCore.of_eq rfl) ⟨[], by simp⟩
-            exact oS.toW
-          exact key _ (o0.trans (drain_W pick f _ _ hi0))
-        · exact key _ (Out.refl f _).toW
-      · exact ⟨hai, fun _ _ h => h⟩
-  | opening m r => exact ⟨hai, fun _ _ h => h⟩
-  | sending m i => exact ⟨hai, fun _ _ h => h⟩
-  | resetting m i => exact ⟨hai, fun _ _ h => h⟩
-  | exiting => exact ⟨hai, fun _ _ h => h⟩
-  | exited => exact ⟨hai, fun _ _ h => h⟩
+        exact key _ (drain_W pick f _ _ hi)
+      · exact ⟨hai, fun _ _ _ _ h => h⟩
+  | opening m r => exact ⟨hai, fun _ _ _ _ h => h⟩
+  | sending m i => exact ⟨hai, fun _ _ _ _ h => h⟩
+  | resetting m i => exact ⟨hai, fun _ _ _ _ h => h⟩
+  | exiting => exact ⟨hai, fun _ _ _ _ h => h⟩
+  | exited => exact ⟨hai, fun _ _ _ _ h => h⟩
 
-theorem buildWith_stepOK (pick : Pick) (f : Req → Sub) {s : State} (hai : AI f s) (tx : Tx) (size : Nat)
+theorem closed_inflight_none {s : State} (h : s.closed = true) : s.pc.inflight = none := by
+  obtain ⟨peer, maxRetries, builders, nextTopic, token, done, sender, pc, closedStreams, waiters,
+    nextTicket, topics, pubClosed, alloc, log⟩ := s
+  cases pc <;> first | rfl | (simp [State.closed] at h)
+
+/-- `buildMessage` as seen by callers, with a transaction whose subscriber is its request's: on a closed
+    queue the attached subscriber is told `Error` at once -/
+theorem buildMsg_outW (pick : Pick) (f : Req → Sub) {s : State} (hn : NInv s) (ticket : Nat) (tx : Tx) (size : Nat)
+    (hf : tx.sub = f tx.req) : OutW f s (s.buildMsg pick ticket tx size) := by
+  have o := buildMessage_out pick f s ticket tx size hf
+  unfold State.buildMsg
+  split
+  · next hc =>
+    have hi := (closed_idle hn hc).quiet (buildMessage_quiet pick s ticket tx size)
+    exact o.toW.trans (drain_W pick f 1 _ hi)
+  · exact o.toW
+
+/-- the inflight clause of `AI` after a caller's step (which keeps `pc`, and the topics of an open queue) -/
+theorem infl_caller (f : Req → Sub) {s s' : State} (hai : AI f s) (hpc : s'.pc = s.pc)
+    (htp : s.closed = false → s'.topics = s.topics) :
+    ∀ m, s'.pc.inflight = some m → ∀ r ∈ m.streams, f r ∈ (aget s'.topics m.topic).getD [] := by
+  intro m hm r hr
+  rw [hpc] at hm
+  by_cases hc : s.closed = true
+  · rw [closed_inflight_none hc] at hm; cases hm
+  · rw [htp (by simpa using hc)]; exact hai.infl m hm r hr
+
+theorem buildWith_stepOK (pick : Pick) (f : Req → Sub) {s : State} (hn : NInv s) (hai : AI f s) (tx : Tx) (size : Nat)
     (hf : tx.sub = f tx.req) : StepOK f s (buildWith pick s tx size) := by
-  obtain ⟨h1, h2, h3, h4⟩ := buildWith_att pick f s tx size hf
-  obtain ⟨b1, a1⟩ := h1 hai.bfun
-  have hpc := buildWith_pc pick s tx size
-  have htp := (buildWith_quiet pick s tx size).topics
-  refine ⟨⟨b1, h4 hai.wfun, ?_⟩, ?_⟩
-  · intro m hm r hr; rw [htp]; rw [hpc] at hm; exact hai.infl m hm r hr
-  · intro u t hw
-    rcases hw with h | h | h
-    · rcases a1 u t h with h' | h'
-      · exact Or.inl h'
-      · exact Or.inr (Or.inr h')
-    · exact Or.inr (Or.inl ((seq_mono h3 u t).1 h))
-    · exact Or.inr (Or.inr (h.mono h2 h3))
+  have hinfl := infl_caller f hai (buildWith_pc pick s tx size) (fun hc => (buildWith_quiet pick s tx size hc).topics)
+  unfold buildWith at hinfl ⊢
+  simp only at hinfl ⊢
+  have o0 : Out f s ({ s with nextTicket := s.nextTicket + 1 } : State) := Out.same f rfl rfl (WCore.of_eq rfl) ⟨[], by simp⟩
+  have h0 : NInv ({ s with nextTicket := s.nextTicket + 1 } : State) :=
+    hn.quiet (Quiet.ofLog [] (by simp) (by simp) (by simp) rfl rfl rfl rfl) rfl
+  split
+  · next hz =>
+    rw [if_pos hz] at hinfl
+    exact stepOK_of_outW hai (o0.toW.trans (buildMsg_outW pick f h0 s.nextTicket tx 0 hf)) hinfl
+  · next hz =>
+    rw [if_neg hz] at hinfl
+    have o1 := o0.trans (allocStep_out pick f ({ s with nextTicket := s.nextTicket + 1 } : State) (.alloc s.peer size s.nextTicket))
+    have h1 := h0.quiet (allocStep_quiet pick ({ s with nextTicket := s.nextTicket + 1 } : State)
+      (.alloc s.peer size s.nextTicket)) rfl
+    split
+    · next hg =>
+      rw [if_pos hg] at hinfl
+      exact stepOK_of_outW hai (o1.toW.trans (buildMsg_outW pick f h1 s.nextTicket tx size hf)) hinfl
+    · next hg =>
+      rw [if_neg hg] at hinfl
+      refine ⟨⟨(o1.att hai.bfun).1, ?_, hinfl⟩, ?_⟩
+      · intro w hw'
+        rcases List.mem_append.mp hw' with h | h
+        · exact o1.wcore.wfun hai.wfun w h
+        · simp at h; subst h; exact hf
+      · intro u t r n0 hw
+        have h2 : W u t r n0 (State.allocStep pick ({ s with nextTicket := s.nextTicket + 1 } : State)
+            (.alloc s.peer size s.nextTicket)).1 := W.of_out o1 hai.bfun hw
+        exact h2
 
 /-- every step, with transactions carrying their request's own subscriber -/
 theorem step_stepOK (pick : Pick) (f : Req → Sub) {s : State} (hj : J s) (hai : AI f s) (a : Act)
     (hfa : ∀ tx, a = .build tx → tx.sub = f tx.req) : StepOK f s (step pick s a) := by
+  have hn : NInv s := hj
   cases a with
-  | run pw =>
-    rcases hj with hf | hn
-    · show StepOK f s (s.run pick pw); rw [run_exited _ _ _ hf.pc]; exact ⟨hai, fun _ _ h => h⟩
-    · exact run_stepOK pick f hn hai pw
-  | ack ok =>
-    rcases hj with hf | hn
-    · show StepOK f s (s.ack pick ok); rw [ack_exited _ _ _ hf.pc]; exact ⟨hai, fun _ _ h => h⟩
-    · exact ack_stepOK pick f hn hai ok
+  | run pw => exact run_stepOK pick f hn hai pw
+  | ack ok => exact ack_stepOK pick f hn hai ok
   | shutdown => exact fields_stepOK f hai rfl rfl rfl rfl rfl (fun m h => h)
   | env op =>
     have o := allocStep_out pick f s op
@@ -266,26 +291,36 @@ theorem step_stepOK (pick : Pick) (f : Req → Sub) {s : State} (hj : J s) (hai 
     show StepOK f s (s.build pick tx)
     rw [build_eq]
     split
-    · exact ⟨hai, fun _ _ h => h⟩
-    · exact buildWith_stepOK pick f hai tx _ hf
+    · exact ⟨hai, fun _ _ _ _ h => h⟩
+    · exact buildWith_stepOK pick f hn hai tx _ hf
   | wake t0 =>
     show StepOK f s (s.wake pick t0)
-    have hpc := wake_pc pick s t0
-    have htp := (wake_quiet pick s t0).topics
-    rcases wake_att pick f s t0 hai.wfun with o | ⟨s1, e1, e2, e3, e4, o⟩
-    · apply stepOK_of_outW hai o.toW
-      intro m hm r hr; rw [htp]; rw [hpc] at hm; exact hai.infl m hm r hr
-    · have hb1 : ∀ b ∈ s1.builders, BFun f b := by rw [e1]; exact hai.bfun
-      obtain ⟨b2, a2⟩ := o.att hb1
-      refine ⟨⟨b2, o.wcore.wfun (fun w hw => hai.wfun w (e4 w hw)), ?_⟩, ?_⟩
-      · intro m hm r hr; rw [htp]; rw [hpc] at hm; exact hai.infl m hm r hr
-      · intro u t hw
-        have hw1 : W f u t s1 := by
-          rcases hw with ⟨x, hx, ha⟩ | h | ⟨r, hr, h⟩
-          · exact Or.inl ⟨x, by rw [e1]; exact hx, ha⟩
-          · exact Or.inr (Or.inl (by rw [e3]; exact h))
-          · exact Or.inr (Or.inr ⟨r, by rw [e2]; exact hr, by rw [e3]; exact h⟩)
-        exact W.of_out o hb1 hw1
+    have hinfl := infl_caller f hai (wake_pc pick s t0) (fun hc => (wake_quiet pick s t0 hc).topics)
+    unfold State.wake at hinfl ⊢
+    cases hfd : s.waiters.find? (fun w => w.ticket == t0 && w.answer.isSome) with
+    | none => exact ⟨hai, fun _ _ _ _ h => h⟩
+    | some w =>
+      rw [hfd] at hinfl
+      simp only at hinfl ⊢
+      have hwm : w ∈ s.waiters := List.mem_of_find?_eq_some hfd
+      -- dropping the waiter: builders, closed streams, log unchanged; fewer waiters
+      have hai1 : AI f ({ s with waiters := s.waiters.filter (·.ticket != w.ticket) } : State) :=
+        ⟨hai.bfun, fun x hx => hai.wfun x (List.mem_filter.mp hx).1, hai.infl⟩
+      have h0 : NInv ({ s with waiters := s.waiters.filter (·.ticket != w.ticket) } : State) :=
+        hn.quiet (Quiet.ofLog [] (by simp) (by simp) (by simp) rfl rfl rfl rfl) rfl
+      have hW0 : ∀ u t r n0, W u t r n0 s → W u t r n0 ({ s with waiters := s.waiters.filter (·.ticket != w.ticket) } : State) :=
+        fun _ _ _ _ h => h
+      split
+      · next ha =>
+        rw [if_pos ha] at hinfl
+        have ow := buildMsg_outW pick f h0 w.ticket w.tx w.size (hai.wfun w hwm)
+        exact ⟨⟨ow.bfun hai1.bfun, ow.wcore.wfun hai1.wfun, hinfl⟩, fun u t r n0 hw => ow.w hai1.bfun u t r n0 (hW0 u t r n0 hw)⟩
+      · next ha =>
+        rw [if_neg ha] at hinfl
+        have o : Out f ({ s with waiters := s.waiters.filter (·.ticket != w.ticket) } : State)
+            (({ s with waiters := s.waiters.filter (·.ticket != w.ticket) } : State).emit [Event.dropped w.ticket]) :=
+          Out.same f rfl rfl (WCore.of_eq rfl) ⟨_, rfl⟩
+        exact ⟨⟨(o.att hai1.bfun).1, o.wcore.wfun hai1.wfun, hinfl⟩, fun u t r n0 hw => W.of_out o hai1.bfun (hW0 u t r n0 hw)⟩
 
 theorem init_AI (f : Req → Sub) (peer mr mt mp : Nat) : AI f (init peer mr mt mp) :=
   ⟨by intro b hb; simp [init] at hb, by intro w hw; simp [init] at hw, by intro m hm; simp [init, Pc.inflight] at hm⟩
